@@ -372,11 +372,13 @@ PROPS = {
     },
     "C26": {
         "category": "other",
-        "technique": "BOUNDED run-time check of random interleavings against the statement's five clauses (harness/C26.py) decides the property; only two edge contracts (deploy, get_connector) are proved by pyvc",
+        "technique": "BOUNDED run-time check of random interleavings against the statement's five clauses (harness/C26.py) decides the property; only three sequential contracts (deploy, get_connector, _set_failed) are proved by pyvc",
         "harness_modes": ["crosscheck"],
         "explanation": "BOUNDED ONLY for the property itself. The lifecycle is a protocol over interleavings of coroutines (_deploy, _inner_deploy, undeploy, the per-deployment "
-        "events); the verifier has no yield-point invariants, so no clause of C26 is proved. The only obligations are two edge contracts: deploy() leaves the deployment "
-        "holding itself (its own name in its dependency set) and get_connector returns the registered connector or None. The property is decided, bounded, by harness/C26.py: "
+        "events); the verifier has no yield-point invariants, so no clause of C26 is proved. The only obligations are three sequential contracts: deploy() leaves the deployment "
+        "holding itself (its own name in its dependency set), get_connector returns the registered connector or None, and _set_failed (the code path of a failed deployment) "
+        "removes the deployment from the live map, discards it from EVERY dependency set while no other member and no key of the graph changes, and sets its event (the loop "
+        "over dependency_graph.values() is read as a keyed loop with write-back, assuming distinct set objects per key). The property is decided, bounded, by harness/C26.py: "
         "random interleavings (600 per quick run; event-loop turns drawn at random before and inside every request and inside the fake connectors) of 1..4 concurrent deploy / "
         "use requests followed by 0..3 concurrent undeploy requests and undeploy_all, over a wraps chain inner <- mid <- outer of instrumented fake connectors, each lazy or eager, "
         "with an injected deploy failure in a third of the runs; the connectors' call log is checked against the five clauses of the statement. A deploy request racing with an "
@@ -408,6 +410,10 @@ PROPS = {
     "C08": {
         "category": "other",
         "harness_modes": ["crosscheck"],
+        # "two loads of the same record are equal but independent": the getters hand out deep copies of the cached rows (proved as
+        # decorator units in contracts/C09.py; re-proved here so that a change of one of them is reported for C08 too)
+        "depends": [("C09", ["SqliteDatabase.get_deployment@decorator:cached", "SqliteDatabase.get_filter@decorator:cached", "SqliteDatabase.get_port@decorator:cached",
+                             "SqliteDatabase.get_step@decorator:cached", "SqliteDatabase.get_target@decorator:cached", "SqliteDatabase.get_token@decorator:cached"])],
         "explanation": "Fragment: the save / load PAIRS that are straight-line code are proved, each round trip as a lemma over the two contracts of the pair. "
         "(1) contracts/C08.py — the base Token: save() writes the token at most once (a token that already has an id, or whose save is in flight, is not written "
         "again; the second saver returns only after the first one has set its event; the event is set on every way out, by try/finally), the one add_token call carries exactly the "
@@ -428,13 +434,16 @@ PROPS = {
         "(4) contracts/C08_tokens.py — ListToken._save_value (every element is saved first; one id per element, in list order, repetitions kept, none of them None) and "
         "ListToken._load (position j is the token the context loads from id j); lemma list_token_round_trip. asyncio.gather(*(create_task(f(x)) for x in xs)) is read as a "
         "list comprehension when f is a pure lookup, and as a call of the PROVED lemma gather_save (ghost loop over Token.save) when f is save(). "
+        "(5) contracts/C08_hw.py — CWLHardwareRequirement: the constructor keeps every GIVEN resource as given (0 is a value, not 'unset'), _save_additional_params writes all six "
+        "keys with the requirement's own values, _load hands each back to the argument it came from; lemma hardware_requirement_round_trip. "
+        "(6) 'two loads are independent': the six @cached getters of SqliteDatabase hand out deep copies of the cached rows (decorator units of contracts/C09.py, re-proved here). "
         "NOT decided by proof: the other pairs whose code is a concurrent map over a dict or builds dicts with zip (Combinator.save/load and its subclasses, ObjectToken, "
         "ExecuteStep, BindingConfig, ScheduleStep, Workflow.save/load, Step.save/load), CWL processors, commands and transformers, Job/JobToken, the loading contexts, the SQL. "
         "Covered, bounded, by harness/C08.py: random token trees (nested list/object tokens over JSON values with unicode, the same token instance reachable from two containers "
         "and saved concurrently), random workflow graphs (scatter, gather, combinator and loop-combinator steps with nested dot / cartesian / loop combinators, plain / job / "
         "connector ports), random targets / deployments (wraps, policies, working directories with blanks, empty-string services) / filters and workflows with deploy and schedule "
         "steps are saved and loaded twice through fresh contexts, compared structurally, edited in place to check independence, and deep-copied through the "
-        "WorkflowBuilder; CWL processor trees are compared attribute by attribute. One port wired twice to a step does not survive (recorded finding).",
+        "WorkflowBuilder; CWL processor trees and the hardware requirements of CWL schedule steps (zero, default-valued, fractional, expression and unset resources) are compared attribute by attribute. One port wired twice to a step does not survive (recorded finding).",
         "assumptions": [
             "extern contracts: Database.add_token / add_filter / add_deployment / add_target / add_port store exactly their keyword arguments under a fresh id and get_<x> returns the stored row (SQL and the JSON column encoding are not modelled); asyncio.Event; Token._save_value returns the value (plain tokens)",
             "A-JSON-RECORD rows and params dicts are records with the declared key vocabulary; a dict literal is an instance of the record class the unit is declared to return",
